@@ -37,6 +37,17 @@ func c06Reads(r *R) {
 		r.c.Check(n == 1 && bad == 0, "C06.2", "GetByID", r.p.Pos(gb.Pos()), "reads through GetSync (flushes queued events)", "GetByID does not read through GetSync: a returned state may not be durable yet")
 		if s := r.one("C06.2", gb, "(github.com/filecoin-project/go-statemachine/fsm.Group).GetSync"); s != nil {
 			r.argIs("C06.2", s, 1, "chid", "the channel read")
+			// every path that hands out a state read it through that flushing call
+			n := 0
+			for _, pt := range r.pathsOf("C06.2", gb) {
+				if pt.End != "return" || pt.RetDesc(0) == "nil" {
+					continue
+				}
+				n++
+				ok := pt.Count(r.p.Is("(github.com/filecoin-project/go-statemachine/fsm.Group).GetSync")) == 1 && pt.Has("+"+pt.Desc(s.Value())+"==nil")
+				r.c.Check(ok, "C06.2", fmt.Sprintf("GetByID/state-path#%d", n), r.p.Pos(gb.Pos()), "state handed out only after a successful flushing read", "GetByID hands out a state that was not read through GetSync (e.g. from a cache): it may not be durable: "+pt.Describe())
+			}
+			r.c.Floor("C06.2", n, 1, "state-returning paths of GetByID")
 		}
 	}
 	ip := r.fn("C06.2", "channels", "Channels", "InProgress")
@@ -157,6 +168,18 @@ func c06Cleanup(r *R, f *core.FSM) {
 				r.c.Check(ok, "C06.5", fmt.Sprintf("cleaning-up-path#%d", n), r.p.Pos(fn.Pos()), "restart of a cleaning-up channel only finishes the cleanup", "restart of a channel that is cleaning up does not (only) finish the cleanup: "+pt.Describe())
 			}
 			r.c.Floor("C06.5", n, 1, "cleaning-up paths of RestartDataTransferChannel")
+			// nothing returns before the cleaning-up question is asked, except "not found" and "terminated"
+			term := "channels.IsChannelTerminated(" + r.v(gb) + "#0.Status())"
+			for i, pt := range r.pathsOf("C06.5", fn) {
+				if pt.End != "return" {
+					continue
+				}
+				asked := pt.Has("+"+cl) || pt.Has("-"+cl)
+				excused := pt.Has("-"+r.v(gb)+"#1==nil") || pt.Has("+"+term)
+				if !asked && !excused {
+					r.c.Bad("C06.5", fmt.Sprintf("returns-before-cleanup-check#%d", i+1), r.p.Pos(fn.Pos()), "RestartDataTransferChannel returns before checking whether the channel is cleaning up: a channel persisted in a cleanup status is never finished on this path: "+pt.Describe())
+				}
+			}
 		}
 	}
 	_ = core.Short
